@@ -30,8 +30,9 @@
 (*        <<"cleared", outcome>>     clear_routing_table_entries           *)
 (*   <<"other", command number>>   any other state-changing command        *)
 (*   <<"end", chips>>   final contents of every chip of the session        *)
-(* State st: the router contents last recorded for every chip, and the     *)
-(* progress of the call in flight.                                         *)
+(* State st: for every chip the index of the event that last recorded its  *)
+(* router contents (0 = the setup), the same at the start of the call in   *)
+(* flight, and the progress of that call.                                  *)
 (***************************************************************************)
 EXTENDS RouterLoad, Json, IOUtils
 
@@ -48,14 +49,21 @@ ListedOnce(lst) == Cardinality(ChipsOf(lst)) = Len(lst)
 
 Idle == [mode |-> "idle", app |-> 0, want |-> <<>>, done |-> {}, cur |-> <<>>, base |-> 0, mem |-> <<>>,
          cmd |-> FALSE, failed |-> FALSE]
-Init0(trace) == [rtr |-> [ch \in ChipsOf(trace.chips) |-> SeqSet(Third(trace.chips, ch))],
-                 pre |-> <<>>, call |-> Idle]
+Init0(trace) == [rtr |-> [ch \in ChipsOf(trace.chips) |-> 0], pre |-> <<>>, call |-> Idle]
+\* the router contents of chip ch as recorded by event number ptr (states stay small: they hold ptr only)
+RtrAt(ch, ptr) == SeqSet(IF ptr = 0 THEN Third(Tr.chips, ch)
+                         ELSE LET ev == Tr.ev[ptr] IN
+                              CASE ev[1] = "rtrload" -> ev[8]
+                                [] ev[1] = "free"    -> ev[5]
+                                [] ev[1] = "ret"     -> Third(ev[3], ch))
+Now(ch) == RtrAt(ch, st.rtr[ch])
+Pre(ch) == RtrAt(ch, st.pre[ch])
 
 Given(ch) == IF ch \in ChipsOf(st.call.want) THEN Third(st.call.want, ch) ELSE <<>>
 BaseOf(ch) == (CHOOSE dd \in st.call.done : <<dd[1], dd[2]>> = ch)[3]
 DoneChips == { <<dd[1], dd[2]>> : dd \in st.call.done }
 \* what a chip's router must hold when the call in flight ends
-Expected(ch) == IF ch \in DoneChips THEN AfterLoad(st.pre[ch], BaseOf(ch), st.call.app, Given(ch)) ELSE st.pre[ch]
+Expected(ch) == IF ch \in DoneChips THEN AfterLoad(Pre(ch), BaseOf(ch), st.call.app, Given(ch)) ELSE Pre(ch)
 
 Checks(e) ==
   CASE e[1] = "tables" ->
@@ -73,7 +81,7 @@ Checks(e) ==
         [AllocInCall   |-> /\ st.call.mode = "load" /\ ~st.call.failed /\ st.call.cur = <<>>
                            /\ ch \in ChipsOf(st.call.want) /\ ch \notin DoneChips,
          AllocMatches  |-> e[4] = Len(Given(ch)) /\ e[5] = st.call.app,
-         EnvAllocSound |-> ch \in DOMAIN st.rtr => AllocSound(st.rtr[ch], e[4], e[6])]
+         EnvAllocSound |-> ch \in DOMAIN st.rtr => AllocSound(Now(ch), e[4], e[6])]
     [] e[1] = "write" ->
         [StagingOnAllocatedChip |-> /\ st.call.mode = "load" /\ st.call.cur = <<e[2], e[3]>>
                                     /\ ~st.call.failed /\ ~st.call.cmd,
@@ -88,7 +96,7 @@ Checks(e) ==
             RouteWordIsSumOfBits |-> bufoff >= 0 => RouteWordIsSumOfBits(st.call.mem, bufoff, given),
             EnvInstallMatchesStaging |->
                 (bufoff >= 0 /\ ch \in DOMAIN st.rtr) =>
-                    SeqSet(e[8]) = MachineInstall(st.rtr[ch], st.call.mem, count, app, bufoff, base)]
+                    SeqSet(e[8]) = MachineInstall(Now(ch), st.call.mem, count, app, bufoff, base)]
     [] e[1] = "ret" ->
         LET outcome == e[2]  after == e[3] IN
         [CallInFlight  |-> st.call.mode = "load",
@@ -96,7 +104,7 @@ Checks(e) ==
          AllocFailureRaisesAndInstallsNothing |->
              st.call.failed => /\ outcome = "SpiNNakerRouterError"
                                /\ st.call.cur \in ChipsOf(after)
-                               /\ SeqSet(Third(after, st.call.cur)) = st.pre[st.call.cur],
+                               /\ SeqSet(Third(after, st.call.cur)) = Pre(st.call.cur),
          RouterErrorOnlyOnAllocFailure |-> outcome = "SpiNNakerRouterError" => st.call.failed,
          InstalledExactlyGiven |->
              st.call.mode = "load" =>
@@ -108,17 +116,17 @@ Checks(e) ==
     [] e[1] = "copy" ->
         [ReadInGet |-> st.call.mode = "get",
          EnvCopyMatchesRouter |-> <<e[2], e[3]>> \in DOMAIN st.rtr
-                                  /\ CopyMatchesRouter(st.rtr[<<e[2], e[3]>>], e[4], e[5])]
+                                  /\ CopyMatchesRouter(Now(<<e[2], e[3]>>), e[4], e[5])]
     [] e[1] = "got" ->
         [CallInFlight |-> st.call.mode = "get",
          NoOtherError |-> e[2] = "ok",
-         ReadBackSame |-> (e[2] = "ok" /\ st.call.mode = "get") => ReadBackSame(st.rtr[st.call.cur], e[3], e[4])]
+         ReadBackSame |-> (e[2] = "ok" /\ st.call.mode = "get") => ReadBackSame(Now(st.call.cur), e[3], e[4])]
     [] e[1] = "clear" ->
         [NoCallInFlight |-> st.call.mode = "idle", KnownChips |-> <<e[2], e[3]>> \in DOMAIN st.rtr]
     [] e[1] = "free" ->
         LET ch == <<e[2], e[3]>> IN
         [ClearCommandMatches |-> st.call.mode = "clear" /\ ch = st.call.cur /\ e[4] = st.call.app /\ ~st.call.cmd,
-         EnvFreeRemovesApp   |-> ch \in DOMAIN st.rtr => SeqSet(e[5]) = AfterFree(st.rtr[ch], e[4])]
+         EnvFreeRemovesApp   |-> ch \in DOMAIN st.rtr => SeqSet(e[5]) = AfterFree(Now(ch), e[4])]
     [] e[1] = "cleared" ->
         [CallInFlight |-> st.call.mode = "clear",
          NoOtherError |-> e[2] = "ok",
@@ -127,10 +135,10 @@ Checks(e) ==
     [] e[1] = "end" ->
         [NoCallInFlight |-> st.call.mode = "idle",
          FinalContents  |-> /\ ChipsOf(e[2]) = DOMAIN st.rtr
-                            /\ \A ch \in ChipsOf(e[2]) : ch \in DOMAIN st.rtr => SeqSet(Third(e[2], ch)) = st.rtr[ch]]
+                            /\ \A ch \in ChipsOf(e[2]) : ch \in DOMAIN st.rtr => SeqSet(Third(e[2], ch)) = Now(ch)]
     [] OTHER -> [UnknownEvent |-> FALSE]
 
-SetRtr(ch, contents) == [st.rtr EXCEPT ![ch] = SeqSet(contents)]
+SetRtr(ch) == [st.rtr EXCEPT ![ch] = ei]
 Apply(e) ==
   CASE e[1] = "load" ->
         [st EXCEPT !.pre = st.rtr, !.call = [Idle EXCEPT !.mode = "load", !.app = e[2], !.want = e[3]]]
@@ -139,17 +147,17 @@ Apply(e) ==
                    !.call.mem = <<>>, !.call.cmd = FALSE]
     [] e[1] = "write" -> [st EXCEPT !.call.mem = Overlay(st.call.mem, e[4], e[5])]
     [] e[1] = "rtrload" ->
-        [st EXCEPT !.rtr = SetRtr(<<e[2], e[3]>>, e[8]),
+        [st EXCEPT !.rtr = SetRtr(<<e[2], e[3]>>),
                    !.call.done = st.call.done \cup {<<e[2], e[3], e[7]>>},
                    !.call.cur = <<>>, !.call.mem = <<>>]
     [] e[1] = "ret" ->
-        [st EXCEPT !.rtr = [ch \in DOMAIN st.rtr |-> IF ch \in ChipsOf(e[3]) THEN SeqSet(Third(e[3], ch))
+        [st EXCEPT !.rtr = [ch \in DOMAIN st.rtr |-> IF ch \in ChipsOf(e[3]) THEN ei
                                                      ELSE st.rtr[ch]],
                    !.pre = <<>>, !.call = Idle]
     [] e[1] = "get" -> [st EXCEPT !.call = [Idle EXCEPT !.mode = "get", !.cur = <<e[2], e[3]>>]]
     [] e[1] = "got" -> [st EXCEPT !.call = Idle]
     [] e[1] = "clear" -> [st EXCEPT !.call = [Idle EXCEPT !.mode = "clear", !.cur = <<e[2], e[3]>>, !.app = e[4]]]
-    [] e[1] = "free" -> [st EXCEPT !.rtr = SetRtr(<<e[2], e[3]>>, e[5]), !.call.cmd = TRUE]
+    [] e[1] = "free" -> [st EXCEPT !.rtr = SetRtr(<<e[2], e[3]>>), !.call.cmd = TRUE]
     [] e[1] = "cleared" -> [st EXCEPT !.call = Idle]
     [] OTHER -> st
 
